@@ -6,6 +6,9 @@ package seq
 
 import (
 	"fmt"
+	"math"
+	"runtime/debug"
+	"runtime/metrics"
 	"sort"
 	"sync"
 
@@ -43,6 +46,18 @@ type Config[W any, O any] struct {
 	HangCPU time.Duration
 	// RootFilter, when set, restricts the operations tried from the initial state (process sharding).
 	RootFilter func(i int, o O) bool
+}
+
+// memoryShort reports that the live heap has reached 70% of the process's soft memory limit (workers run under
+// GOMEMLIMIT and an address-space limit): the search stops like at its deadline - incomplete, not dead.
+func memoryShort() bool {
+	limit := debug.SetMemoryLimit(-1)
+	if limit <= 0 || limit == math.MaxInt64 {
+		return false
+	}
+	sample := []metrics.Sample{{Name: "/memory/classes/heap/objects:bytes"}}
+	metrics.Read(sample)
+	return sample[0].Value.Kind() == metrics.KindUint64 && sample[0].Value.Uint64() > uint64(limit)/10*7
 }
 
 func BFS[W any, O any](c Config[W, O]) Stats {
@@ -99,7 +114,7 @@ func BFS[W any, O any](c Config[W, O]) Stats {
 			go func(wi int) {
 				defer wg.Done()
 				for path := range jobs {
-					if !c.Deadline.IsZero() && time.Now().After(c.Deadline) {
+					if (!c.Deadline.IsZero() && time.Now().After(c.Deadline)) || memoryShort() {
 						mu.Lock()
 						stopped = true
 						st.FrontierLeft++
